@@ -36,8 +36,40 @@ Leg "conc" (DESIGN 4/C15 b)
     through generation options, log / streaming requests, and an LLM object that keeps its parameters either in real fields
     (`temperature`, `max_tokens`) or in `model_kwargs`.
 
+    The case feature "between" (a quarter of the generated cases: 3 / 8 / 40 / 135 of them; enumerated family "many
+    conversations in between": 140-300 between two turns of a multi-turn conversation on a dialog-rails configuration) serves
+    that many single-turn conversations of other users (unique texts, no options) on the shared instance after a given step of
+    the interleaving; the first and the last of them are judged like every other conversation.
+
+Leg "conc" also has the parameter shape "disjoint" (a third of the cases that use llm_params, plus an enumerated family): the
+    request whose `with llm_params` block is entered first alters nothing or one parameter, a request entered while that block
+    is open alters only the other one.
+
+Leg "v2" (Colang 2.x, `import llm` / `activate llm continuation`, cfg {"v": 2, "dialog": "llmc"})
+    2-3 conversations of 1-2 turns; every call passes the new user message and the state object returned by the previous call
+    ({} on the first turn).  The LLM (pure function of the prompt, parameterised by the case's "llmc" policy) picks the user
+    intent, names a bot intent and a bot action: `bot say "..."`, a flow the configuration defines, or - `undef`/3 of the
+    answers - a bot flow that is NOT defined, which makes the library ask the LLM to write `flow <name>` and add it with
+    AddFlowsAction (`multi`/3 of these bodies wait for the next user utterance, i.e. are still running when the turn ends).
+    `names` = 0: the undefined name derives from the user's own text (unique per conversation); 1-3: it comes from a pool of
+    that size, so two conversations make the instance add a flow under the same name.  Modes: "seq" (a generated interleaving,
+    sync / async / one coroutine) and "conc" (asyncio tasks under the virtual loop, latencies on a coarse grid so that LLM calls
+    of different tasks end at the same virtual instant).  Same differential (role + text of the returned messages, prompt
+    multiset, LLM parameters).  A conversation for which the LLM wrote a waiting flow is left by its caller after that
+    turn (the waiting flow and the library's reaction to the next utterance race even when the conversation is served alone -
+    probed - so later turns cannot be compared; what matters for the OTHER conversations is that the flow is still there).
+
+The defect model (class DefectModel, function `known`).  Findings C15-F9b / C15-F9c are open; instead of a loose signature the
+    module carries an executable statement of exactly these two defects (save-on-enter / restore-on-exit of LLMParams, with the
+    None it writes for an unconfigured model_kwargs entry) and runs it over the schedule of `with llm_params` blocks it
+    recorded for the case (a probe around LLMParams.__enter__/__exit__ notes tick, LLM object, requested parameters and the
+    conversation in charge, then calls the repository's code unchanged).  A parameter observation that departs from the
+    isolated replay is set aside as a listed finding only if every judged conversation opened the same blocks as in its
+    isolated replay AND the observed value is exactly what the model predicts for that instant; everything else - e.g. a
+    parameter left altered where the unchanged code restores it - is a violation.
+
 Reporting.  Every departure found in a case is collected; the one raised is the first that does NOT carry the signature of a
-finding known on the unchanged tree (see `known`), so a listed finding cannot hide anything else.  Violation kinds are root-cause
+finding listed open on the unchanged tree (see `known`), so a listed finding cannot hide anything else.  Violation kinds are root-cause
 buckets computed from the observations: `cache-key-collision` (divergence at/after a request that the cache model flags),
 `seq-<what>` / `conc-<what>` (divergence of reply / prompts / returned-log / stream with no such signature), `llm-params-leak`
 (parameter at call start), `llm-params-changed-during-call` (at call end), `llm-params-not-restored` and
@@ -45,7 +77,8 @@ buckets computed from the observations: `cache-key-collision` (divergence at/aft
 harness's observation points), which refines virtual time: LangChain's agenerate yields to the loop even with zero latency.
 A violation is re-checked by running the whole case a second time from scratch (same kind required, else harness error).
 
-Nothing here edits vf.fakes / vf.pipeline; the module subclasses `Session`, `ScriptedLLM` and `Pipeline`.
+Nothing here edits vf.fakes / vf.pipeline; the module subclasses `Session`, `ScriptedLLM` and `Pipeline` (leg v2 uses the
+existing cfg {"v": 2, "dialog": "llmc"} of vf.pipeline as it is).
 """
 import asyncio
 import hashlib
@@ -70,7 +103,7 @@ HANG_IS_VIOLATION = False
 WALL = {"quick": 130, "thorough": 1400}
 MAX_STEPS = 400_000
 RULE = (
-    "two legs, half of the generated cases each. seq: Colang 1.0 config (dialog rails on ~75%, 0-1 input rail of check/rewrite/shipped "
+    "three legs: seq and conc 4/9 of the generated cases each, v2 1/9, plus three enumerated families. seq: Colang 1.0 config (dialog rails on ~75%, 0-1 input rail of check/rewrite/shipped "
     "self-check, 0-1 output rail; LLM parameters in real fields or in model_kwargs) x 2-4 conversations of 1-3 turns; texts = 1-3 parts "
     "joined by ':' where a part is an atom of a collision-prone alphabet (a, b, a:b, ':', b:, JSON-looking strings, the predefined bot "
     "message) or a reference resolved from the isolated replays (the reply / the ':'-joined transcript of an earlier conversation); "
@@ -78,20 +111,37 @@ RULE = (
     "conversation re-spelled - adjacent messages merged with ':', roles swapped, context turned into its JSON text, cut; optional "
     "per-conversation generation options (none at all, or llm_params temperature/max_tokens and/or log), in a third of the sequential cases one conversation is the twin of its predecessor (same messages, different options incl. rails switches), streaming requests; call "
     "mode sync generate / one run_until_complete(generate_async) per turn / ALL turns awaited one after the other inside ONE coroutine "
-    "(shared context, ~50%); a generated interleaving of all turns on ONE shared instance, full message histories passed every turn. Each conversation is also replayed alone on a fresh instance; returned value (message, log, streamed "
+    "(shared context, ~50%); a generated interleaving of all turns on ONE shared instance, full message histories passed every turn; in a quarter "
+    "of the cases 3 / 8 / 40 / 135 single-turn conversations of other users (unique texts) are served between two steps of the interleaving "
+    "(enumerated family 'many conversations in between': 140-300 of them between two turns of a 2-3 turn conversation on a dialog-rails "
+    "configuration - quick 2 cases, thorough 18 over all dialog configurations x n in 130/200/300 x call mode). Each conversation is also replayed alone on a fresh instance; returned value (message, log, streamed "
     "chunks), per-turn prompt multiset and LLM parameters at call start/end must be equal, and the LLM object's parameters must be the "
     "configured ones after every turn. conc: 2-5 conversations (1-2 turns, unique texts) as asyncio tasks on one instance under a "
     "virtual-time loop with generated start offsets, per-call LLM latencies, per-task llm_params (temperature, max_tokens), log / "
     "streaming requests; same differential (calls compared in order) plus the configured-parameters invariant whenever no request is "
-    "in flight. While a finding is listed open, 3/4 of the conc cases come from the sub-domain that cannot trigger it (general mode, no "
-    "self-check rail, no llm_params). Non-trivial: seq = a request finds, under the ':'-joined key of a proper prefix of its messages, "
+    "in flight; a third of the cases that use llm_params have the parameter shape 'disjoint' (the request whose block is entered first alters "
+    "nothing or one parameter, a request entered while that block is open alters only the other one; also an enumerated family over general "
+    "mode / dialog rails x LLM variant x parameter pair x which request ends first). While a finding is listed open, 3/4 of the conc cases come "
+    "from the sub-domain that cannot trigger it (general mode, no self-check rail, no llm_params); the open findings C15-F9b/F9c are classified "
+    "by an executable defect model run over the recorded schedule of `with llm_params` blocks: only an observation that equals the model's "
+    "prediction exactly is set aside. v2: Colang 2.x with the library's llm continuation, 2-3 conversations of 1-2 turns passing the returned "
+    "state object back, LLM policy drawn per case (share of answers naming an undefined bot flow 0-3/3, pool of such names: per-conversation, "
+    "or - once finding C15-F23 is listed / VF_C15_V2_SHARED=1 - shared pool of 1-3, share of generated bodies that wait for the next user "
+    "turn 0/1/3 of 3), sequential interleaving (sync/async/one coroutine) or concurrent tasks under the virtual loop with latencies on a "
+    "coarse grid; same differential (returned message roles+texts, prompt multiset, LLM parameters); enumerated family of 2 (4) cases. "
+    "Non-trivial: seq = a request finds, under the ':'-joined key of a proper prefix of its messages, "
     "an entry written by another conversation (identical prefix or colliding key), or overwrites another conversation's entry (harness "
     "model of the cache); conc = LLM calls of two different tasks overlap without nesting in the loop's order of call starts/ends "
-    "(which refines virtual time). Distinct by case hash; only cases on which the property held are counted."
+    "(which refines virtual time); v2 = LLM-generated flows were added for at least two conversations on the shared instance. Distinct by case hash; only cases on which the property held are counted."
 )
 ASSUMPTIONS = [
     "the LLM is a pure function of the prompt (statement: 'and the LLM's answers to the prompts built from them'); fake rails are pure functions of the text they see",
-    "Colang 1.0 configurations only (the events cache and the three-step generation are Colang 1.0 mechanisms; Colang 2.x carries its state explicitly)",
+    "legs seq/conc: Colang 1.0 configurations (the events cache and the three-step generation are Colang 1.0 mechanisms); leg v2: Colang 2.x `llm continuation`, the caller hands the returned state object back ({} on the first turn)",
+    "leg v2: the LLM is a pure function of the prompt, and the shipped generate_flow_from_name prompt does not contain the conversation - so a conversation that runs a flow another conversation made the LLM write shows in the prompts (one prompt less), not in the reply text",
+    "leg v2: a conversation ends (its caller sends nothing more) after a turn in which the LLM wrote a flow that waits for the next user utterance - that flow and the library's reaction to the utterance race even when the conversation is served alone, so later turns could not be compared",
+    "leg v2: while finding C15-F23 (fresh states share the runtime's flow table) is neither listed in known_findings.json nor enabled with VF_C15_V2_SHARED=1, undefined flow names are derived from each conversation's own text",
+    "the schedule of `with llm_params` blocks is observed by a probe around LLMParams.__enter__/__exit__ (tick + requested parameters, then the repository's code runs unchanged); the defect model of C15-F9b/F9c uses that schedule and nothing else of the implementation",
+    "the conversations served 'in between' are single-turn, without options, with texts no other conversation uses; only the first and the last are replayed in isolation",
     "the caller keeps each conversation the way a stateless server does: the full message history (supplied history, user messages, returned replies) is passed every turn",
     "a conversation whose supplied history is exactly (roles and contents) the transcript of another conversation served by the instance is the same conversation for the instance and is not judged",
     "asyncio interleavings at the suspension points of the code (LLM calls with generated latencies) only; no OS threads",
@@ -126,9 +176,10 @@ def _last_user_text(prompt):
 class DigestSession(fakes.Session):
     """Policy of the fakes for C15: every answer is a function of what the fake is shown, nothing else."""
 
-    def __init__(self, cfg, n_turns, lat=None):
+    def __init__(self, cfg, n_turns, lat=None, llmc=None):
         super().__init__({"config": cfg, "turns": [{} for _ in range(n_turns)]}, cfg)
         self.lat = list(lat or [])
+        self.llmc = dict(llmc or {})  # leg "v2": how the LLM writes flows (a parameter of the case, the same in every run of it)
 
     def rail_verdict(self, cat, idx, turn, text):
         d = _dg(f"{cat}{idx}|{text}")
@@ -154,10 +205,60 @@ class DigestSession(fakes.Session):
             return "bot " + ("inform time" if d % 2 else "offer help")
         if task in ("self_check_input", "self_check_output"):
             return "Yes" if d % 6 == 0 else "No"
+        if task == "v2_user_intent":
+            return V2_INTENTS[_dg(_v2_last_user_action(prompt)) % len(V2_INTENTS)]
+        if task == "v2_flow_continuation":
+            return self._v2_continuation(prompt, d)
+        if task == "general" and _v2_flow_name(prompt) is not None:
+            return self._v2_flow_body(prompt, d)
         text = REPLY_ATOMS[(d // 3) % len(REPLY_ATOMS)] if d % 3 == 0 else f"LLM{d % 0xFFFFFFFF:08x} says so"
         if task == "generate_bot_message":
             return f'  "{text}"'
         return text
+
+
+    # ---- Colang 2.x `llm continuation`: the LLM names a bot intent + a bot action, and writes flows for undefined names ----
+    def _v2_continuation(self, prompt, d):
+        """`bot intent` line + `bot action:` line.  The action is `bot say "<text>"` or - in `undef` of 3 digest classes - the
+        name of a bot flow the configuration does not define (the library then asks the LLM to write that flow and adds it
+        with AddFlowsAction under exactly that name).  `names` = size of the pool such names come from; 0 = the name is
+        derived from the user's own text (no two conversations of a case name the same flow)."""
+        intent = V2_BOT_INTENTS[d % len(V2_BOT_INTENTS)]
+        if (d // 3) % 3 < int(self.llmc.get("undef", 0)):
+            n = int(self.llmc.get("names", 0))
+            if n:
+                name = V2_FLOW_NAMES[(d // 9) % min(n, len(V2_FLOW_NAMES))]
+            else:
+                name = f"bot inform about x{_dg(_v2_last_user_action(prompt)) % 0xFFFFFF:06x}"
+            return f"{intent}\nbot action: {name}"
+        if (d // 9) % 7 == 0:
+            return f"{intent}\nbot action: bot express greeting"  # a flow the configuration defines
+        return f'{intent}\nbot action: bot say "LLM{d % 0xFFFFFFFF:08x} says so"'
+
+    def _v2_flow_body(self, prompt, d):
+        """Body of `flow <name>` (generate_flow_from_name): one utterance, or - in `multi` of 3 digest classes - an utterance,
+        a wait for the user's next utterance, and a second utterance (such a flow is still running when the turn ends)."""
+        one = f'  bot say "FLOW{d % 0xFFFFFFFF:08x} body"'
+        if d % 3 < int(self.llmc.get("multi", 0)):
+            return one + f'\n  {_V2_WAITS}\n  bot say "FLOW{d % 0xFFFFFFFF:08x} second part"'
+        return one
+
+
+_V2_WAITS = "user said something"
+V2_INTENTS = ["user expressed greeting", "user asked something else", "user asked about topic", "user requested help", "user asked something else"]
+V2_BOT_INTENTS = ["bot provide answer", "bot give info", "bot respond"]
+V2_FLOW_NAMES = ["bot inform about things", "bot explain topic", "bot share details"]
+
+
+def _v2_last_user_action(prompt):
+    i = prompt.rfind("user action: ")
+    return prompt[i:].split("\n")[0] if i >= 0 else prompt
+
+
+def _v2_flow_name(prompt):
+    """Name in a generate_flow_from_name prompt (it ends with the line `flow <name>`), else None."""
+    tail = prompt.rstrip().split("\n")[-1]
+    return tail[5:].strip() if tail.startswith("flow ") and "# Complete the following flow based on its name:" in prompt else None
 
 
 def _now():
@@ -174,6 +275,166 @@ def _tick():
     """Order of the harness's observation points (request start/end, LLM call start/end) across all conversations."""
     _TICKS["n"] += 1
     return _TICKS["n"]
+
+
+# ------------------------------------------------------------------------------------------------
+# the schedule of `with llm_params(...)` blocks (observation only) and the defect model of findings C15-F9b / C15-F9c
+#
+# The harness owns the schedule: which block is entered / left when, relative to all its other observation points.  The
+# probe below records exactly that (a tick, the LLM object, the requested parameters, the conversation in charge) and then
+# runs the repository's own __enter__ / __exit__ unchanged - whatever those do to the LLM object is not looked at here.
+
+_TRACES = {}  # id(llm object) -> [block event]; filled only for the LLM objects of the running case
+_BLOCKS = {"n": 0}
+
+
+def _install_param_probe():
+    from nemoguardrails.llm import params as P
+
+    cls = P.LLMParams
+    if cls.__dict__.get("_vf_probe"):
+        return
+    o_init, o_enter, o_exit = cls.__init__, cls.__enter__, cls.__exit__
+
+    def __init__(self, llm, **kwargs):
+        self._vf_llm, self._vf_params, self._vf_b = llm, dict(kwargs), None
+        o_init(self, llm, **kwargs)
+
+    def __enter__(self):
+        tr = _TRACES.get(id(getattr(self, "_vf_llm", None)))
+        if tr is not None:
+            _BLOCKS["n"] += 1
+            self._vf_b = _BLOCKS["n"]
+            cur = fakes.CURRENT.get()
+            tr.append({"k": _tick(), "ev": "enter", "b": self._vf_b, "params": dict(self._vf_params),
+                       "conv": getattr(cur[0], "cid", None) if cur else None, "turn": cur[1] if cur else None})
+        return o_enter(self)
+
+    def __exit__(self, *exc):
+        tr = _TRACES.get(id(getattr(self, "_vf_llm", None)))
+        if tr is not None and getattr(self, "_vf_b", None) is not None:
+            tr.append({"k": _tick(), "ev": "exit", "b": self._vf_b})
+        return o_exit(self, *exc)
+
+    cls.__init__, cls.__enter__, cls.__exit__, cls._vf_probe = __init__, __enter__, __exit__, True
+
+
+_install_param_probe()
+
+
+class DefectModel:
+    """What the LLMParams of the UNCHANGED tree does to the LLM object under a given schedule of blocks - the exact content
+    of the open findings C15-F9b and C15-F9c, written from their description in known_findings.json:
+
+        enter:  for every requested parameter: remember the value the LLM object has NOW (an attribute; for an LLM that
+                keeps its parameters in model_kwargs the entry, or None when there is no entry), then write the requested one;
+        exit:   write the remembered values back (model_kwargs: only if the entry still exists).
+
+    With blocks that nest or follow each other this restores the configured values (except that an unconfigured model_kwargs
+    parameter comes back as an explicit None: F9c); with blocks of different requests that overlap without nesting the value
+    remembered by one block is the temporary value of another (F9b).  `at(tick)` is the parameter snapshot this predicts for
+    an observation made at `tick`.  A parameter observation that departs from the isolated replay is an instance of a listed
+    finding only if it is EXACTLY what this model predicts for the schedule of the case; anything else is a violation."""
+
+    def __init__(self, llm_spec, configured, events):
+        self.kw = llm_spec != "field"
+        state = dict(configured["model_kwargs"]) if self.kw else dict(configured)
+        self.configured = dict(state)
+        saved = {}
+        self.timeline = [(0, dict(state))]
+        for e in sorted(events, key=lambda e: e["k"]):
+            if e["ev"] == "enter":
+                s = saved[e["b"]] = {}
+                for p, v in e["params"].items():
+                    if self.kw:
+                        s[p] = state.get(p)
+                        state[p] = v
+                    elif p in state:
+                        s[p] = state[p]
+                        state[p] = v
+            else:
+                for p, v in saved.pop(e["b"], {}).items():
+                    if not self.kw or p in state:
+                        state[p] = v
+            self.timeline.append((e["k"], dict(state)))
+        # blocks of different conversations open at the same time (any order of their ends), by the tick of the later entry
+        self.overlaps = []
+        open_ = {}
+        for e in sorted(events, key=lambda e: e["k"]):
+            if e["ev"] == "enter":
+                if any(c != e["conv"] for c in open_.values()):
+                    self.overlaps.append(e["k"])
+                open_[e["b"]] = e["conv"]
+            else:
+                open_.pop(e["b"], None)
+
+    def at(self, tick):
+        cur = self.timeline[0][1]
+        for k, s in self.timeline:
+            if k >= tick:
+                break
+            cur = s
+        return cur
+
+    def snapshot_at(self, tick):
+        s = self.at(tick)
+        return {"model_kwargs": dict(s)} if self.kw else dict(s)
+
+    def value_at(self, tick, field):
+        """What a call record's t_* / mt_* field would hold at `tick`."""
+        p = "temperature" if field.startswith("t_") else "max_tokens"
+        s = self.at(tick)
+        return s.get(p, UNSET) if self.kw else s[p]
+
+    def overlap_before(self, tick):
+        return any(k < tick for k in self.overlaps)
+
+    def none_shaped(self, snapshot):
+        """The snapshot differs from the configured parameters only by `param: None` entries for unconfigured parameters."""
+        if not self.kw:
+            return False
+        a, b = snapshot.get("model_kwargs", {}), self.configured
+        return a != b and all(k in a and a[k] == v for k, v in b.items()) and all(a[k] is None for k in a if k not in b)
+
+
+def _blocks_by_turn(events):
+    """{(conversation, turn): [requested parameters of its blocks, in order of entry]}"""
+    out = defaultdict(list)
+    for e in events:
+        if e["ev"] == "enter":
+            out[(e["conv"], e["turn"])].append(json.dumps(e["params"], sort_keys=True, default=repr))
+    return out
+
+
+def _blocks_match(shared_events, iso_events_by_conv, skip=()):
+    """Every (judged) conversation asked, turn by turn, for the same `with llm_params` blocks on the shared instance as in its
+    isolated replay (the defect model explains what overlapping blocks do to the LLM object, never WHICH blocks a request opens)."""
+    got = _blocks_by_turn(shared_events)
+    exp = {}
+    for evs in iso_events_by_conv:
+        exp.update(_blocks_by_turn(evs))
+    return {k: sorted(v) for k, v in got.items() if k[0] not in skip} == {k: sorted(v) for k, v in exp.items() if k[0] not in skip}
+
+
+def _set_blocks_match(problems, value):
+    for v in problems:
+        d = v.detail or {}
+        if d.get("model") and not d.get("isolated"):
+            d["model"]["blocks_match"] = bool(value)
+
+
+def _disjoint_overlap(events):
+    """A block that alters a parameter was entered while a block of ANOTHER conversation that does not cover that parameter
+    was open (the open block's own save/restore then says nothing about it)."""
+    open_ = {}
+    for e in sorted(events, key=lambda e: e["k"]):
+        if e["ev"] == "enter":
+            if any(c != e["conv"] and set(e["params"]) - set(ps) for c, ps in open_.values()):
+                return True
+            open_[e["b"]] = (e["conv"], e["params"])
+        else:
+            open_.pop(e["b"], None)
+    return False
 
 
 class FieldLLM(fakes.ScriptedLLM):
@@ -272,6 +533,8 @@ def _make_llm(spec):
 
 class _Prob(str):
     none_added = False
+    tick = None
+    now = None
 
 
 def _rest_kind(none_added):
@@ -290,17 +553,38 @@ class Pipe(pipeline.Pipeline):
         finally:
             fakes.ScriptedLLM = orig
         self.configured = self.llm.snapshot()
+        self.llm_spec = llm_spec
+        self.ptrace = _TRACES[id(self.llm)] = []  # schedule of the `with llm_params` blocks on this LLM object
+
+    def model(self):
+        return DefectModel(self.llm_spec, self.configured, self.ptrace)
 
     def params_problem(self):
         """None, or a sentence (a str subclass carrying `.none_added`: the only difference is `param: None` entries added to
-        model_kwargs for parameters that were not configured)."""
+        model_kwargs for parameters that were not configured; `.tick` / `.now`: when and what was observed)."""
         now = self.llm.snapshot()
         if now == self.configured:
             return None
         msg = _Prob(f"LLM object parameters are {now}, configured {self.configured}")
         a, b = now.get("model_kwargs"), self.configured.get("model_kwargs")
         msg.none_added = a is not None and all(k in a and a[k] == v for k, v in b.items()) and all(a[k] is None for k in a if k not in b)
+        msg.tick, msg.now = _tick(), now
         return msg
+
+    def rest_detail(self, prob, **more):
+        """detail of a 'parameters at rest' observation: what was seen next to what the defect model predicts for the schedule."""
+        m = self.model()
+        d = {"none_added": prob.none_added, "model": {"predicted": repr(m.snapshot_at(prob.tick)), "observed": repr(prob.now), "overlap": m.overlap_before(prob.tick), "blocks_match": True}}
+        d.update(more)
+        return d
+
+    def call_detail(self, rc, f, **more):
+        """detail of a parameter observation at the start / end of an LLM call (field f of the call record rc)."""
+        m = self.model()
+        tick = rc["k0"] if f.endswith("start") else rc["k1"]
+        d = {"observed": repr(rc[f]), "field": f, "model": {"predicted": repr(m.value_at(tick, f)), "observed": repr(rc[f]), "overlap": m.overlap_before(tick), "blocks_match": True}}
+        d.update(more)
+        return d
 
 
 # ------------------------------------------------------------------------------------------------
@@ -358,6 +642,7 @@ class Conv:
     def __init__(self, cid, cfg, init, n_turns, options=None, stream=False, lat=None):
         self.cid = cid
         self.session = DigestSession(cfg, n_turns, lat)
+        self.session.cid = cid
         self.messages = [dict(m) for m in init]
         self.options = options
         self.stream = stream
@@ -402,6 +687,7 @@ def turn_sync(pipe, conv, t, text, api):
     n_llm = len(conv.session.llm_calls)
     tok = fakes.set_current(conv.session, t)
     res = exc = None
+    k0 = _tick()
     try:
         if api == "async":
             res = pipeline.loop().run_until_complete(pipe.rails.generate_async(**kw))
@@ -411,7 +697,7 @@ def turn_sync(pipe, conv, t, text, api):
         exc = e
     finally:
         fakes.CURRENT.reset(tok)
-    return conv.finish(text, n_llm, res, exc, handler)
+    return conv.finish(text, n_llm, res, exc, handler, k0)
 
 
 async def turn_async(pipe, conv, t, text):
@@ -664,7 +950,7 @@ def _seq_isolated(case, problems):
     iso = {}
     for i, spec in enumerate(case["convs"]):
         pipe = Pipe(cfg, case["llm"])
-        rec = {"replies": [], "keys": [], "texts": [], "obs": [], "init": None, "transcripts": []}
+        rec = {"replies": [], "keys": [], "texts": [], "obs": [], "init": None, "transcripts": [], "ptrace": pipe.ptrace}
         iso[i] = rec
         rec["init"] = _resolve_init(spec.get("init", []), i, iso)
         conv = Conv(i, cfg, rec["init"], len(spec["users"]), _conv_options(spec), bool(spec.get("stream")))
@@ -681,7 +967,7 @@ def _seq_isolated_one(i, spec, pipe, conv, rec, iso, problems):
         prob = pipe.params_problem()
         if prob and not any(v.kind == _rest_kind(prob.none_added) for v in problems):
             problems.append(Violation(_rest_kind(prob.none_added), f"[seq/isolated] conversation {i} alone on a fresh instance, after turn {t} (LLM calls {[c['task'] for c in o['calls']]}): {prob}",
-                                      {"leg": "seq", "overlap": False, "sequential": True, "none_added": prob.none_added}))
+                                      pipe.rest_detail(prob, leg="seq", sequential=True, isolated=True)))
         rec["replies"].append(str(o["message"].get("content")) if o["raised"] is None else "a")
         rec["keys"].append(lossy_key(conv.messages))
         rec["transcripts"].append(json.loads(json.dumps(conv.messages)))
@@ -697,6 +983,39 @@ def _seq_schedule(case):
         j += 1
         out.append(pick)
         left[pick] -= 1
+    return out
+
+
+FILLER = 1000  # conversation ids of the "many conversations in between" start here
+
+
+def _filler_text(k, atom):
+    return f"filler {k} {atom}"
+
+
+def _between(case):
+    """(after_step, n, atom) of the case feature "between": n cheap single-turn conversations (unique texts, no options)
+    are served by the shared instance after schedule step `after_step`; (None, 0, "") without it."""
+    b = case.get("between")
+    if not b or not int(b.get("n", 0)):
+        return None, 0, ""
+    return int(b.get("after", 0)), int(b["n"]), str(b.get("atom", "hi"))
+
+
+def _filler_isolated(case, ks, problems):
+    """Isolated replays of the fillers that are judged (the first and the last one - each costs a fresh instance)."""
+    cfg, api = case["config"], case.get("api", "sync")
+    atom = _between(case)[2]
+    out = {}
+    for k in ks:
+        pipe = Pipe(cfg, case["llm"])
+        conv = Conv(FILLER + k, cfg, [], 1)
+
+        def one(pipe=pipe, conv=conv, k=k):
+            o = yield (pipe, conv, 0, _filler_text(k, atom))
+            return o
+
+        out[k] = {"obs": _drive(one(), api), "ptrace": pipe.ptrace}
     return out
 
 
@@ -733,7 +1052,17 @@ def run_seq(case, problems):
     switches = sum(1 for a, b in zip(sched, sched[1:]) if a != b)
     labels.append("interleaved" if any(sched[x] != sched[x + 1] and sched[x] in sched[x + 1:] for x in range(len(sched) - 1)) else "back-to-back")
     state = {"nt": False}
-    _drive(_seq_shared(case, shared, convs, iso, sched, model, labels, problems, unjudged, tainted_convs, diverged, state), api)
+    after, n_fill, _ = _between(case)
+    judged_fill = sorted({0, n_fill - 1}) if n_fill else []
+    fill_iso = _filler_isolated(case, judged_fill, problems) if n_fill else {}
+    if n_fill:
+        labels.append("conversations-in-between=" + ("1-9" if n_fill < 10 else "10-127" if n_fill < 128 else "128+"))
+        # which conversation has a turn before AND after the fillers (its cached history has to survive them)
+        if after is not None and any(i in sched[after + 1:] for i in sched[:after + 1]):
+            labels.append("conversation-continues-after-the-conversations-in-between")
+    _drive(_seq_shared(case, shared, convs, iso, sched, model, labels, problems, unjudged, tainted_convs, diverged, state, fill_iso), api)
+    skip = unjudged | diverged | {FILLER + k for k in range(n_fill) if k not in fill_iso}
+    _set_blocks_match(problems, _blocks_match(shared.ptrace, [iso[i]["ptrace"] for i in iso] + [f["ptrace"] for f in fill_iso.values()], skip=skip))
     nt = state["nt"]
     if unjudged:
         labels.append("some-conversation-not-judged")
@@ -746,10 +1075,40 @@ def run_seq(case, problems):
     return ok(nt=nt, labels=sorted(set(labels)), view=json.loads(json.dumps(view, default=repr)))
 
 
-def _seq_shared(case, shared, convs, iso, sched, model, labels, problems, unjudged, tainted_convs, diverged, state):
+def _seq_fillers(case, shared, problems, diverged, fill_iso, step):
+    """The "conversations in between": n single-turn conversations served one after the other on the shared instance."""
+    _, n, atom = _between(case)
+    cfg = case["config"]
+    for k in range(n):
+        conv = Conv(FILLER + k, cfg, [], 1)
+        text = _filler_text(k, atom)
+        o = yield (shared, conv, 0, text)
+        where = f"[seq] conversation in between #{k} of {n} (after step {step}, request {json.dumps(conv.request(text))[:200]})"
+        prob = shared.params_problem()
+        if prob and not any(v.kind == _rest_kind(prob.none_added) for v in problems):
+            problems.append(Violation(_rest_kind(prob.none_added), f"{where}: after the turn, no request in flight: {prob}", shared.rest_detail(prob, leg="seq", sequential=True)))
+        if k in fill_iso:
+            diffs = compare_turn(o, fill_iso[k]["obs"], ordered=False)
+            if diffs:
+                diverged.add(FILLER + k)
+                what, sentence, extra = diffs[0]
+                detail = {"leg": "seq", "what": what, "conv": FILLER + k, "turn": 0, "hit": None, "tainted": False}
+                if what in ("params-start", "params-end") and extra is not None:
+                    rc, f = extra
+                    conf = shared.configured.get("model_kwargs", shared.configured)
+                    detail.update(shared.call_detail(rc, f, sequential=True, unconfigured_param=("temperature" if f.startswith("t_") else "max_tokens") not in conf))
+                    problems.append(Violation("llm-params-leak" if what == "params-start" else "llm-params-changed-during-call", f"{where}: {sentence}; sequential, no other request in flight", detail))
+                else:
+                    problems.append(Violation("seq-" + what, f"{where}: {sentence}", detail))
+
+
+def _seq_shared(case, shared, convs, iso, sched, model, labels, problems, unjudged, tainted_convs, diverged, state, fill_iso=None):
     """All turns of the interleaving on the shared instance (a generator driven by `_drive`)."""
     nxt = [0] * len(convs)
+    after = _between(case)[0]
     for step, i in enumerate(sched):
+        if after is not None and step == after + 1:
+            yield from _seq_fillers(case, shared, problems, diverged, fill_iso or {}, after)
         conv, t = convs[i], nxt[i]
         nxt[i] += 1
         text = iso[i]["texts"][t]
@@ -779,7 +1138,7 @@ def _seq_shared(case, shared, convs, iso, sched, model, labels, problems, unjudg
             labels.append("generate-raised")
         prob = shared.params_problem()
         if prob and not any(v.kind == _rest_kind(prob.none_added) for v in problems):
-            problems.append(Violation(_rest_kind(prob.none_added), f"{where}: after the turn, no request in flight: {prob}", {"leg": "seq", "overlap": False, "sequential": True, "none_added": prob.none_added}))
+            problems.append(Violation(_rest_kind(prob.none_added), f"{where}: after the turn, no request in flight: {prob}", shared.rest_detail(prob, leg="seq", sequential=True)))
         if i in unjudged or i in diverged:
             continue
         diffs = compare_turn(o, iso[i]["obs"][t], ordered=False)
@@ -790,7 +1149,7 @@ def _seq_shared(case, shared, convs, iso, sched, model, labels, problems, unjudg
             if what in ("params-start", "params-end") and extra is not None and i not in tainted_convs:
                 rc, f = extra
                 conf = shared.configured.get("model_kwargs", shared.configured)
-                detail.update(overlap=False, sequential=True, observed=repr(rc[f]), field=f, unconfigured_param=("temperature" if f.startswith("t_") else "max_tokens") not in conf)
+                detail.update(shared.call_detail(rc, f, sequential=True, unconfigured_param=("temperature" if f.startswith("t_") else "max_tokens") not in conf))
                 problems.append(Violation("llm-params-leak" if what == "params-start" else "llm-params-changed-during-call", f"{where}: {sentence}; sequential, no other request in flight", detail))
                 continue
             if i in tainted_convs:
@@ -802,6 +1161,8 @@ def _seq_shared(case, shared, convs, iso, sched, model, labels, problems, unjudg
                 problems.append(Violation("cache-key-collision", f"{where}: {sentence}. Cache signature: {sig}", detail))
             else:
                 problems.append(Violation("seq-" + what, f"{where}: {sentence}; no cache-key collision involved (harness model of the cache: {hit})", detail))
+    if after is not None and after + 1 >= len(sched):
+        yield from _seq_fillers(case, shared, problems, diverged, fill_iso or {}, after)
 
 
 # ------------------------------------------------------------------------------------------------
@@ -856,13 +1217,14 @@ def _conc_isolated(case, problems):
                 prob = pipe.params_problem()
                 if prob:
                     p2 = _Prob(f"after turn {t}: {prob}")
-                    p2.none_added = prob.none_added
+                    p2.none_added, p2.tick, p2.now = prob.none_added, prob.tick, prob.now
                     first.append(p2)
             return first[0] if first else None
 
         prob = _run_loop(main)
         if prob and not any(v.kind == _rest_kind(prob.none_added) for v in problems):
-            problems.append(Violation(_rest_kind(prob.none_added), f"[conc/isolated] task {i} alone on a fresh instance (options {conv.options}), {prob}", {"leg": "conc", "overlap": False, "sequential": True, "none_added": prob.none_added}))
+            problems.append(Violation(_rest_kind(prob.none_added), f"[conc/isolated] task {i} alone on a fresh instance (options {conv.options}), {prob}", pipe.rest_detail(prob, leg="conc", sequential=True, isolated=True)))
+        conv.ptrace = pipe.ptrace
         iso.append(conv)
     return iso
 
@@ -883,7 +1245,7 @@ def run_conc(case, problems):
         state["idle_checks"] += 1
         prob = shared.params_problem()
         if prob:
-            state["idle_problems"].append((_tick(), prob.none_added, f"{when} at virtual time {loop.time():.4f} (no request in flight): {prob}"))
+            state["idle_problems"].append((prob, f"{when} at virtual time {loop.time():.4f} (no request in flight): {prob}"))
 
     async def one(loop, i):
         if tasks[i]["start"]:
@@ -938,23 +1300,23 @@ def run_conc(case, problems):
         labels.append("crossing-in-virtual-time")
     if racing:
         labels.append("overlapping-calls-with-altered-params")
+    if _disjoint_overlap(shared.ptrace):
+        labels.append("overlap-later-block-alters-param-the-open-block-does-not-cover")
     if any(ts.get("temp") is not None or ts.get("mt") is not None for ts in tasks):
         labels.append("llm_params-option")
+    if case.get("pshape"):
+        labels.append("params-shape=" + case["pshape"])
     if any(ts.get("stream") for ts in tasks):
         labels.append("streaming")
     if any(ts.get("log") for ts in tasks):
         labels.append("log-option")
     labels.append(f"idle-observations={min(state['idle_checks'], 6)}{'+' if state['idle_checks'] > 6 else ''}")
-    configured_vals = {"t": [conf_pair[0], None], "mt": [conf_pair[1], None]}
 
     def race_detail(i, at=None):
-        """Signature of the llm_params race: `with llm_params` blocks of different tasks, at least one of them altering a
-        parameter, were open at the same time before the observation."""
+        """Schedule facts for the message: `with llm_params` blocks of different tasks, at least one of them altering a
+        parameter, were open at the same time before the observation (classification is done by the defect model, see `known`)."""
         before = [r for r in racing if at is None or r[0] <= at]
-        # a stale restore can bring back any value some call of the case asked for (also an earlier one of the same task)
-        others_t = sorted({repr(c["exp"]["t_start"]) for c in calls if c["exp"]} | {repr(v) for v in configured_vals["t"]})
-        others_mt = sorted({repr(c["exp"]["mt_start"]) for c in calls if c["exp"]} | {repr(v) for v in configured_vals["mt"]})
-        return {"leg": "conc", "overlap": bool(before), "n_racing_pairs": len(before), "other_values_t": others_t, "other_values_mt": others_mt}
+        return {"leg": "conc", "n_racing_pairs": len(before)}
 
     # differential
     for i, conv in enumerate(convs):
@@ -964,16 +1326,18 @@ def run_conc(case, problems):
                 if what in ("params-start", "params-end") and extra is not None:
                     rc, f = extra
                     d = race_detail(i, rc["k0"] if what == "params-start" else rc["k1"])
-                    d.update(what=what, observed=repr(rc[f]), field=f, unconfigured_param=conf_pair[0 if f.startswith("t_") else 1] == UNSET, observed_is_foreign=repr(rc[f]) in (d["other_values_t"] if f.startswith("t_") else d["other_values_mt"]))
+                    d.update(shared.call_detail(rc, f, what=what, unconfigured_param=conf_pair[0 if f.startswith("t_") else 1] == UNSET))
                     kind = "llm-params-leak" if what == "params-start" else "llm-params-changed-during-call"
                     problems.append(Violation(kind, f"{where}: {sentence}; call in flight {rc['vt0']:.4f}-{rc['vt1']:.4f} virtual s; {d['n_racing_pairs']} pairs of `with llm_params` blocks of different tasks (at least one altering a parameter) were open at the same time before that observation", d))
                 else:
                     problems.append(Violation("conc-" + what, f"{where}: {sentence}", {"leg": "conc", "what": what, "overlap": bool(racing)}))
     if state["idle_problems"]:
-        at, none_added, msg = state["idle_problems"][0]
-        d = race_detail(-1, at)
-        d.update(what="idle", none_added=none_added)
+        prob, msg = state["idle_problems"][0]
+        none_added = prob.none_added
+        d = race_detail(-1, prob.tick)
+        d.update(shared.rest_detail(prob, what="idle"))
         problems.append(Violation(_rest_kind(none_added), f"[conc] {len(tasks)} tasks on one instance: {msg}; {d['n_racing_pairs']} pairs of `with llm_params` blocks of different tasks (at least one altering a parameter) were open at the same time before that observation", d))
+    _set_blocks_match(problems, _blocks_match(shared.ptrace, [c.ptrace for c in iso]))
     view = {
         "leg": "conc", "config": cfg, "llm": case["llm"],
         "tasks": [{"start": ts["start"], "options": convs[i].options, "stream": bool(ts.get("stream")), "latencies": ts.get("lat"), "users": _task_texts(i, ts),
@@ -981,6 +1345,212 @@ def run_conc(case, problems):
                    "replies": [o["message"].get("content") if o["raised"] is None else o["raised"] for o in convs[i].obs]} for i, ts in enumerate(tasks)],
     }
     return ok(nt=nt, labels=sorted(set(labels)), view=json.loads(json.dumps(view, default=repr)))
+
+
+# ------------------------------------------------------------------------------------------------
+# leg "v2": Colang 2.x, the library's `llm continuation` (LLM-generated flows), state handed back by the caller
+
+
+class V2Conv(Conv):
+    """A Colang 2.x conversation: every call passes the new user message and the state object the previous call returned
+    ({} on the first turn), as the documented `generate_async(messages=..., state=...)` usage does."""
+
+    def __init__(self, cid, cfg, n_turns, lat=None, llmc=None):
+        super().__init__(cid, cfg, [], n_turns, None, False, lat)
+        self.session = DigestSession(cfg, n_turns, lat, llmc)
+        self.session.cid = cid
+        self.state = {}
+
+    def kwargs(self, text, handler):
+        return {"messages": [{"role": "user", "content": text}], "state": self.state}
+
+    def finish(self, text, n_llm, res, exc, handler, k0=None):
+        o = {"req_k0": k0, "req_k1": _tick(), "raised": None, "result": None, "calls": _norm_calls(self.session.llm_calls[n_llm:]), "raw_calls": self.session.llm_calls[n_llm:], "chunks": None}
+        if exc is not None:
+            o["raised"] = f"{type(exc).__name__}: {exc}"[:400]
+        else:
+            resp = getattr(res, "response", res)
+            resp = resp if isinstance(resp, list) else [resp]
+            # uids, timestamps and the polling timers' tool calls are not compared: role + text of every returned message
+            o["result"] = {"response": [{"role": m.get("role"), "content": m.get("content")} if isinstance(m, dict) else repr(m) for m in resp]}
+            st_ = getattr(res, "state", None)
+            if st_ is not None:
+                self.state = st_
+        self.obs.append(o)
+        return o
+
+
+def _v2_text(i, t, atom):
+    return atom if atom in ("hi", "hello there") else f"t{i}u{t} {atom}"
+
+
+def _v2_names(obs):
+    """Names of the flows the LLM was asked to write (generate_flow_from_name) in a turn."""
+    return [n for n in (_v2_flow_name(c["prompt"]) if isinstance(c["prompt"], str) else None for c in obs["calls"]) if n is not None]
+
+
+def _v2_generated(pipe, base):
+    return sorted(k for k in pipe.rails.runtime.flow_configs if k not in base)
+
+
+def _v2_judge(case, shared, convs, iso, i, t, o, where, problems, diverged, iso_names):
+    """Differential for one turn of the shared run (same categories as the Colang 1.0 legs)."""
+    if i in diverged:
+        return
+    # (a conversation whose shared run, unlike its isolated replay, got a waiting flow and went on is not compared any further)
+    waiting = any(_V2_WAITS in str(c["answer"]) for src in (convs[i].obs[:t], iso[i].obs[:t]) for x in src for c in x["raw_calls"])
+    if waiting:
+        diverged.add(i)
+        return
+    diffs = compare_turn(o, iso[i].obs[t], ordered=False)
+    if not diffs:
+        return
+    diverged.add(i)
+    what, sentence, extra = diffs[0]
+    mine = {n for tt in range(t + 1) for n in iso_names[i][tt]}
+    # conversations that named the same flow in a turn that started before this turn ended (on the shared instance)
+    others = {n for j in iso_names if j != i for tt in iso_names[j] for n in iso_names[j][tt]
+              if tt < len(convs[j].obs) and (convs[j].obs[tt]["req_k0"] or 0) < o["req_k1"]}
+    detail = {"leg": "v2", "what": what, "conv": i, "turn": t, "generated_flow_names_also_requested_by_other_conversations": sorted(mine & others)}
+    if what in ("params-start", "params-end") and extra is not None:
+        rc, f = extra
+        detail.update(shared.call_detail(rc, f, what=what, unconfigured_param=False))
+        problems.append(Violation("llm-params-leak" if what == "params-start" else "llm-params-changed-during-call", f"{where}: {sentence}", detail))
+        diverged.discard(i)  # the conversation itself went on unchanged
+        return
+    note = ""
+    if detail["generated_flow_names_also_requested_by_other_conversations"]:
+        note = (f"; in its isolated replay the LLM was asked to write the flow(s) {detail['generated_flow_names_also_requested_by_other_conversations']} for this conversation, and "
+                f"another conversation served by the instance had the LLM write a flow of the same name (AddFlowsAction stores it in the flow table all fresh states of the instance share)")
+    problems.append(Violation("v2-" + what, f"{where}: {sentence}{note}", detail))
+
+
+def run_v2(case, problems):
+    cfg, mode, api = case["config"], case.get("mode", "seq"), case.get("api", "async")
+    llmc = case.get("llmc") or {}
+    specs = case["convs"]
+    labels = ["leg=v2", "v2-mode=" + mode, f"convs={len(specs)}", f"v2-llm-undefined-flow-share={int(llmc.get('undef', 0))}/3",
+              "v2-flow-name-pool=" + (str(int(llmc.get("names", 0))) if int(llmc.get("names", 0)) else "per-conversation"), f"v2-multi-step-body-share={int(llmc.get('multi', 0))}/3"]
+    if mode == "seq":
+        labels.append("api=" + api)
+    texts = [[_v2_text(i, t, a) for t, a in enumerate(sp["users"])] for i, sp in enumerate(specs)]
+
+    def new_conv(i):
+        return V2Conv(i, cfg, len(specs[i]["users"]), specs[i].get("lat") if mode == "conc" else None, llmc)
+
+    # isolated replays
+    iso, iso_names = [], {}
+    for i in range(len(specs)):
+        pipe = Pipe(cfg, case["llm"])
+        conv = new_conv(i)
+
+        def goes_on(o):
+            # the caller leaves a conversation after the turn in which the LLM wrote a flow that waits for the next utterance:
+            # what the next turn does is a race inside the interpreter even for a conversation served alone (see module docstring)
+            return not any(_V2_WAITS in str(c["answer"]) for c in o["raw_calls"])
+
+        if mode == "conc":
+            async def main(loop, pipe=pipe, conv=conv, i=i):
+                for t, text in enumerate(texts[i]):
+                    if not goes_on(await turn_async(pipe, conv, t, text)):
+                        break
+            _run_loop(main)
+        else:
+            def one(pipe=pipe, conv=conv, i=i):
+                for t, text in enumerate(texts[i]):
+                    if not goes_on((yield (pipe, conv, t, text))):
+                        break
+            _drive(one(), api)
+        if len(conv.obs) < len(texts[i]):
+            labels.append("conversation-left-with-a-generated-flow-still-waiting")
+            texts[i] = texts[i][: len(conv.obs)]
+        conv.ptrace = pipe.ptrace
+        prob = pipe.params_problem()
+        if prob and not any(v.kind == _rest_kind(prob.none_added) for v in problems):
+            problems.append(Violation(_rest_kind(prob.none_added), f"[v2/isolated] conversation {i} alone on a fresh instance: {prob}", pipe.rest_detail(prob, leg="v2", sequential=True, isolated=True)))
+        iso.append(conv)
+        iso_names[i] = {t: _v2_names(o) for t, o in enumerate(conv.obs)}
+
+    shared = Pipe(cfg, case["llm"])
+    base = set(shared.rails.runtime.flow_configs)
+    convs = [new_conv(i) for i in range(len(specs))]
+    diverged = set()
+    if mode == "seq":
+        sched = _seq_schedule({"convs": [{"users": tx} for tx in texts], "order": case.get("order", [])})
+
+        def all_turns():
+            nxt = [0] * len(convs)
+            for step, i in enumerate(sched):
+                t = nxt[i]
+                nxt[i] += 1
+                o = yield (shared, convs[i], t, texts[i][t])
+                where = f"[v2/seq] conversation {i} turn {t} (step {step} of schedule {sched}, user text {texts[i][t]!r}, LLM policy {llmc})"
+                prob = shared.params_problem()
+                if prob and not any(v.kind == _rest_kind(prob.none_added) for v in problems):
+                    problems.append(Violation(_rest_kind(prob.none_added), f"{where}: after the turn, no request in flight: {prob}", shared.rest_detail(prob, leg="v2", sequential=True)))
+                _v2_judge(case, shared, convs, iso, i, t, o, where, problems, diverged, iso_names)
+
+        _drive(all_turns(), api)
+        labels.append("interleaved" if any(sched[x] != sched[x + 1] and sched[x] in sched[x + 1:] for x in range(len(sched) - 1)) else "back-to-back")
+    else:
+        state = {"active": 0, "idle": []}
+
+        def idle_check(when, loop):
+            prob = shared.params_problem()
+            if prob:
+                state["idle"].append((prob, f"{when} at virtual time {loop.time():.4f} (no request in flight): {prob}"))
+
+        async def one(loop, i):
+            if specs[i].get("start"):
+                await asyncio.sleep(specs[i]["start"])
+            for t, text in enumerate(texts[i]):
+                state["active"] += 1
+                try:
+                    await turn_async(shared, convs[i], t, text)
+                finally:
+                    state["active"] -= 1
+                if state["active"] == 0:
+                    idle_check(f"after conversation {i} turn {t}", loop)
+
+        async def main(loop):
+            await asyncio.gather(*[loop.create_task(one(loop, i)) for i in range(len(convs))])
+            idle_check("after all tasks finished", loop)
+
+        _run_loop(main)
+        for i, conv in enumerate(convs):
+            for t, o in enumerate(conv.obs):
+                where = f"[v2/conc] conversation {i} turn {t} (start offset {specs[i].get('start')}, latencies {specs[i].get('lat')}, user text {texts[i][t]!r}, {len(convs)} tasks on one instance, LLM policy {llmc})"
+                _v2_judge(case, shared, convs, iso, i, t, o, where, problems, diverged, iso_names)
+        if state["idle"]:
+            prob, msg = state["idle"][0]
+            problems.append(Violation(_rest_kind(prob.none_added), f"[v2/conc] {len(convs)} tasks on one instance: {msg}", shared.rest_detail(prob, leg="v2", what="idle")))
+        spans = [(i, o["req_k0"], o["req_k1"]) for i, c in enumerate(convs) for o in c.obs]
+        labels.append("requests-overlap" if any(a[0] != b[0] and a[1] < b[2] and b[1] < a[2] for a in spans for b in spans) else "requests-do-not-overlap")
+    _set_blocks_match(problems, _blocks_match(shared.ptrace, [c.ptrace for c in iso], skip=diverged))
+
+    left = _v2_generated(shared, base)
+    if left:
+        labels.append("instance-keeps-llm-generated-flows-afterwards")
+        for v in problems:
+            if (v.detail or {}).get("leg") == "v2" and v.kind.startswith("v2-"):
+                v.msg += f"; LLM-generated flows still in the instance's flow table after all turns: {left[:6]}"
+                v.args = (f"{v.kind}: {v.msg}",)
+    writers = [i for i, c in enumerate(iso) if any(c2["task"] == "v2_flow_continuation" for o in c.obs for c2 in o["calls"])]
+    all_names = Counter(n for i in iso_names for n in {n for t in iso_names[i] for n in iso_names[i][t]})
+    if any(iso_names[i][t] for i in iso_names for t in iso_names[i]):
+        labels.append("llm-wrote-a-flow-for-an-undefined-name")
+    if any(v > 1 for v in all_names.values()):
+        labels.append("same-generated-flow-name-in-two-conversations")
+    if any(_V2_WAITS in str(c2["answer"]) for c in iso for o in c.obs for c2 in o["raw_calls"]):
+        labels.append("generated-flow-waits-for-the-next-user-turn")
+
+    if any(o["raised"] for c in convs for o in c.obs):
+        labels.append("generate-raised")
+    view = {"leg": "v2", "mode": mode, "config": cfg, "llm_policy": llmc,
+            "conversations": [{"users": texts[i], "start": specs[i].get("start"), "latencies": specs[i].get("lat"),
+                               "llm_tasks": [[c2["task"] for c2 in o["calls"]] for o in convs[i].obs],
+                               "replies": [o["result"]["response"] if o["raised"] is None else o["raised"] for o in convs[i].obs]} for i in range(len(convs))]}
+    return ok(nt=len(writers) >= 2, labels=sorted(set(labels)), view=json.loads(json.dumps(view, default=repr)))
 
 
 # ------------------------------------------------------------------------------------------------
@@ -992,16 +1562,22 @@ def _run(case):
     signature below (so a listed finding cannot hide anything else), else the first one."""
     problems = []
     _TICKS["n"] = 0
+    _TRACES.clear()
     try:
-        res = run_seq(case, problems) if case["leg"] == "seq" else run_conc(case, problems)
+        res = run_v2(case, problems) if case["leg"] == "v2" else run_seq(case, problems) if case["leg"] == "seq" else run_conc(case, problems)
     except BaseException as e:
         if not isinstance(e, Exception):
             pipeline.reset_runtime()
         raise
     if problems:
-        unknown = [v for v in problems if known(case, v) is None]
+        if "open" not in _OPEN:
+            _OPEN["open"] = _open_findings()
+        unknown = [v for v in problems if known(case, v) not in _OPEN["open"]]  # only a finding LISTED open can be set aside
         raise (unknown or problems)[0]
     return res
+
+
+_OPEN = {}
 
 
 def prop(case):
@@ -1018,31 +1594,49 @@ def prop(case):
         raise RuntimeError(f"harness: violation did not reproduce on a second run of the same case: {first}")
 
 
+F_V2 = "C15-F23"  # id proposed for the Colang 2.x finding of this module (not listed in known_findings.json when written)
+PARAM_KINDS = ("llm-params-leak", "llm-params-changed-during-call", "llm-params-not-restored", "llm-params-none-left-in-model-kwargs")
+
+
 def known(case, violation):
     """Signatures of the findings on the unchanged tree.
 
     C15-F9a  events cache keyed by ':'.join(contents) without roles/escaping: the diverging request found, under the key of a
              proper prefix of its messages, an entry stored for a different message list (or an entry descending from one).
-    C15-F9b  LLMParams mutates the shared LLM object around an await and restores the value captured at entry: a parameter
-             mismatch (at call start, at call end, or at rest) after calls of different tasks that asked for different
-             parameters overlapped in virtual time, the observed value being one that some call of the case asked for (or the configured one).
-    C15-F9c  LLMParams.__exit__ writes the saved `None` back into model_kwargs for a parameter that was not configured:
-             parameters at rest differ from the configured ones without any concurrency.
+    C15-F9b  LLMParams mutates the shared LLM object around an await and restores the value captured at entry.
+    C15-F9c  LLMParams.__exit__ writes the saved `None` back into model_kwargs for a parameter that was not configured.
+    C15-F23  (Colang 2.x; reported by this module, see F_V2) a fresh State shares the runtime's flow table, AddFlowsAction /
+             RemoveFlowsAction write into it: the diverging conversation had, in its isolated replay, the LLM write a flow
+             under a name that another conversation of the case named too, in a turn that began before this one ended.
+
+    F9b / F9c are classified through `DefectModel` - an executable statement of exactly these two defects, run over the schedule
+    of `with llm_params` blocks the harness recorded for the case: a parameter observation (at call start, at call end, at
+    rest) that departs from the isolated replay / the configured values is an instance of them only if
+      * every judged conversation opened the same blocks (same requested parameters) as in its isolated replay, and
+      * the observed value is EXACTLY the value the model predicts for that instant, and
+      * it has the shape of one of the two: an explicit None for an unconfigured model_kwargs parameter (F9c), or blocks of
+        different conversations were open at the same time before the observation (F9b).
+    Whatever else the LLM object shows (e.g. a parameter left altered where save-on-enter / restore-on-exit would have brought
+    the configured value back) is reported as a violation.
     """
     d = violation.detail or {}
     if violation.kind == "cache-key-collision" and d.get("tainted"):
         return "C15-F9a"
+    if violation.kind.startswith("v2-") and d.get("leg") == "v2" and d.get("generated_flow_names_also_requested_by_other_conversations"):
+        return F_V2
+    if violation.kind not in PARAM_KINDS:
+        return None
+    m = d.get("model")
+    if not m or not m.get("blocks_match") or m.get("predicted") != m.get("observed"):
+        return None
     kw = str(case.get("llm", "")).startswith("kw")
     if violation.kind in ("llm-params-leak", "llm-params-changed-during-call"):
-        if kw and d.get("unconfigured_param") and d.get("observed") == "None":
-            return "C15-F9c"  # the None left behind by an earlier call is what this call ran with
-        if d.get("overlap") and d.get("observed_is_foreign"):
-            return "C15-F9b"
-    if violation.kind == "llm-params-none-left-in-model-kwargs" and kw and d.get("none_added"):
+        if kw and d.get("unconfigured_param") and m["observed"] == "None":
+            return "C15-F9c"  # the None left behind by an earlier block is what this call ran with
+        return "C15-F9b" if m.get("overlap") else None
+    if kw and d.get("none_added"):
         return "C15-F9c"
-    if violation.kind == "llm-params-not-restored" and d.get("overlap") and not d.get("sequential"):
-        return "C15-F9b"
-    return None
+    return "C15-F9b" if m.get("overlap") else None
 
 
 # ------------------------------------------------------------------------------------------------
@@ -1063,6 +1657,7 @@ TEMPS = [None, None, 0.0, 0.2, 0.5, 0.9, 1.3]
 MTS = [None, None, None, 16, 64]
 LATS = [0, 0.01, 0.05, 0.1, 0.1, 0.2, 0.3, 0.5, 1.0]
 STARTS = [0, 0, 0, 0.01, 0.05, 0.1, 0.15, 0.2, 0.5, 1.0]
+BETWEEN_NS = [0] * 12 + [3, 8, 40, 135]
 CONC_ATOMS = ["hi", "hello there", "how is the weather", "tell me a joke", "tell me a story", "tell me two facts", "what is the status", "what time is it", "a", "b"]
 
 
@@ -1126,7 +1721,13 @@ def _seq_case(draw, llms=None):
         convs[j + 1] = twin
     total = sum(len(c["users"]) for c in convs)
     order = draw(st.lists(st.integers(0, n - 1), min_size=total, max_size=total))
-    return {"leg": "seq", "config": cfg, "llm": draw(st.sampled_from(llms or LLMS)), "api": draw(st.sampled_from(["sync", "async", "onecoro", "onecoro"])), "convs": convs, "order": order}
+    case = {"leg": "seq", "config": cfg, "llm": draw(st.sampled_from(llms or LLMS)), "api": draw(st.sampled_from(["sync", "async", "onecoro", "onecoro"])), "convs": convs, "order": order}
+    # a quarter of the cases: other (cheap, single-turn, unique) conversations are served between two steps of the interleaving -
+    # a few, some dozens, or more than any plausible bound on "recently served conversations" (see also `enumerate_cases`)
+    n_between = draw(st.sampled_from(BETWEEN_NS))
+    if n_between:
+        case["between"] = {"after": draw(st.integers(0, total - 1)), "n": n_between, "atom": draw(st.sampled_from(CONC_ATOMS))}
+    return case
 
 
 @st.composite
@@ -1148,7 +1749,143 @@ def _conc_case(draw, llms=None, quiet=False):
                 "lat": draw(st.lists(st.sampled_from(LATS), min_size=1, max_size=4)),
             }
         )
-    return {"leg": "conc", "config": cfg, "llm": draw(st.sampled_from(llms or LLMS)), "tasks": tasks}
+    case = {"leg": "conc", "config": cfg, "llm": draw(st.sampled_from(llms or LLMS)), "tasks": tasks}
+    if not quiet and draw(st.sampled_from([True, False, False])):
+        # parameter shape "disjoint": the request whose `with llm_params` block is entered first alters no parameter or the
+        # temperature only, a request entered while that block is open alters max_tokens only (and a third of the time the
+        # other way round) - neither block's own save/restore covers what the other one changes
+        a, b = (0, 1) if draw(st.sampled_from([True, True, False])) else (1, 0)
+        first, later = ("temp", "mt") if draw(st.sampled_from([True, True, False])) else ("mt", "temp")
+        vals = {"temp": [0.0, 0.2, 0.9, 1.3], "mt": [5, 16, 64]}
+        tasks[a].update({first: draw(st.sampled_from([None] + vals[first])), later: None, "start": 0, "lat": [draw(st.sampled_from([0.2, 0.3, 0.5, 1.0]))] + tasks[a]["lat"][1:]})
+        tasks[b].update({first: None, later: draw(st.sampled_from(vals[later])), "start": draw(st.sampled_from([0.01, 0.05, 0.1, 0.15]))})
+        case["pshape"] = "disjoint"
+    return case
+
+
+V2_CFG = {"v": 2, "in": [], "out": [], "dialog": "llmc", "exc": False}
+V2_ATOMS = ["tell me a joke", "tell me a story", "what is the status", "what time is it", "a", "b", "how is the weather", "hi", "hello there"]
+
+
+@st.composite
+def _v2_case(draw, shared_names=False):
+    """Colang 2.x leg.  shared_names=False: every undefined bot flow the LLM names is derived from the user's own (unique) text,
+    so no two conversations of the case make the instance add a flow under the same name (the sub-domain that stays judgeable
+    while finding F_V2 is not repaired); True: the names come from a pool of 1-3."""
+    mode = draw(st.sampled_from(["seq", "conc"]))
+    n = draw(st.sampled_from([2, 2, 3]))
+    llmc = {"undef": draw(st.sampled_from([0, 1, 2, 3, 3])), "names": draw(st.sampled_from([1, 1, 2, 3])) if shared_names else 0, "multi": draw(st.sampled_from([0, 0, 1, 3]))}
+    lockstep = mode == "conc" and draw(st.booleans())
+    common = draw(st.lists(st.sampled_from(V2_LATS), min_size=1, max_size=3))
+    convs = []
+    for _ in range(n):
+        c = {"users": draw(st.lists(st.sampled_from(V2_ATOMS), min_size=1, max_size=2))}
+        if mode == "conc":
+            # latencies on a coarse grid (and, in half of the cases, one list for all tasks) so that LLM calls of different
+            # tasks END at the same virtual instant: what then happens is decided by the order of the loop's callbacks
+            c["start"] = draw(st.sampled_from([0, 0, 0.1, 0.1, 0.2]))
+            c["lat"] = common if lockstep and draw(st.booleans()) else draw(st.lists(st.sampled_from(V2_LATS), min_size=1, max_size=3))
+        convs.append(c)
+    case = {"leg": "v2", "mode": mode, "config": V2_CFG, "llm": "field", "llmc": llmc, "convs": convs}
+    if mode == "seq":
+        total = sum(len(c["users"]) for c in convs)
+        case["api"] = draw(st.sampled_from(["async", "onecoro", "sync"]))
+        case["order"] = draw(st.lists(st.integers(0, n - 1), min_size=total, max_size=total))
+    return case
+
+
+V2_LATS = [0, 0.1, 0.1, 0.2]
+
+
+def _v2_family(tier):
+    """Deterministic Colang 2.x family: two conversations whose LLM names the same undefined bot flow - (a) one after the
+    other, the first one's generated flow still waiting for its user when the second conversation starts, (b) as concurrent
+    first turns whose LLM calls end at the same virtual instant - and the same two shapes with per-conversation names."""
+    for names in (1, 0):
+        yield {"leg": "v2", "mode": "seq", "api": "async", "config": V2_CFG, "llm": "field", "llmc": {"undef": 3, "names": names, "multi": 3},
+               "convs": [{"users": ["tell me a joke"]}, {"users": ["what is the status"]}], "order": [0, 1]}
+        yield {"leg": "v2", "mode": "conc", "config": V2_CFG, "llm": "field", "llmc": {"undef": 3, "names": names, "multi": 0},
+               "convs": [{"users": ["tell me a joke"], "start": 0, "lat": [0.1, 0.1, 0.1]}, {"users": ["what is the status"], "start": 0.1, "lat": [0, 0.2, 0.1]}]}
+
+
+def _finding_status(fid):
+    from vf.core import load_known
+
+    for f in load_known():
+        if f.get("id") == fid:
+            return f.get("status")
+    return None
+
+
+def _v2_shared_names():
+    """Whether the Colang 2.x leg lets two conversations name the same LLM-generated flow.  That shape breaks the property on
+    the unchanged tree (finding F_V2, reported by this module).  It is generated once the finding is listed in
+    known_findings.json - open: a third of the v2 cases, classified by `known`; fixed: most of them - or when the
+    environment says VF_C15_V2_SHARED=1; until then the leg stays in the sub-domain with per-conversation names."""
+    import os
+
+    status = _finding_status(F_V2)
+    if os.environ.get("VF_C15_V2_SHARED") == "1":
+        return status or "unlisted"
+    return status
+
+
+def _between_family(tier):
+    """Deterministic family "many conversations in between": a multi-turn conversation on a dialog-rails configuration (its
+    cached events - intents, flow position - matter for the next prompt), and 130-300 single-turn conversations of other users
+    served by the same instance between two of its turns."""
+    dialog_cfgs = [c for c in SEQ_CFGS if c["dialog"]]
+    shapes = [
+        # (users of the long conversation, users of a second one, order, after)
+        ([["hi"], ["tell me a joke"]], [["a"]], [0, 1, 0], 1),
+        ([["hello there"], ["tell me a story"], ["b"]], [["what time is it"], ["hi"]], [0, 0, 1, 0, 1], 1),
+        ([["what is the status"], ["a:b"]], [["tell me two facts"]], [1, 0, 0], 1),
+    ]
+    plan = [(0, 140, "onecoro", "field", 0), (3, 260, "async", "kw1", 1)]
+    if tier != "quick":
+        plan = [(c, n, api, llm, (c + a) % len(shapes)) for c in range(len(dialog_cfgs)) for a, (n, api, llm) in enumerate([(130, "sync", "field"), (200, "async", "kw0"), (300, "onecoro", "field")])]
+    for c, n, api, llm, sh in plan:
+        ua, ub, order, after = shapes[sh]
+        conv = lambda users: {"init": [], "users": users, "log": False, "stream": False, "temp": None, "mt": None}  # noqa: E731
+        yield {"leg": "seq", "config": dialog_cfgs[c % len(dialog_cfgs)], "llm": llm, "api": api, "convs": [conv(ua), conv(ub)], "order": order,
+               "between": {"after": after, "n": n, "atom": CONC_ATOMS[(c + n) % len(CONC_ATOMS)]}}
+
+
+def _disjoint_family(tier):
+    """Deterministic family "overlapping requests that alter different parameters": request A (no llm_params, or one
+    parameter) is in flight when request B (the other parameter only) starts; B ends before or after A; general mode and
+    dialog rails; both LLM variants with both parameters configured.  Where A alters nothing and outlives B (the quick
+    tier's members) every block of the unchanged tree restores exactly what it altered and nothing departs from the isolated
+    replays - no listed finding is involved; the other members also contain instances of C15-F9b (a call that starts or ends
+    inside another request's block), classified by the defect model."""
+    cfgs = [c for c in SEQ_CFGS if not c["dialog"] and not c["in"]][:1] + [SEQ_CFGS[0]]
+    llm_first = {fakes.ROUTES[r][0] for r in ("llm", "lp", "ll", "next_llm", "act_llm")}  # intents answered by an LLM-generated message
+
+    def atom(i):
+        # a user text for task i whose (digest-chosen) intent makes the dialog rails ask the LLM for the bot message, i.e. open
+        # the block that carries the request's llm_params
+        return next((a for a in CONC_ATOMS if INTENTS[_dg(f"t{i}u0 {a}") % len(INTENTS)] in llm_first), CONC_ATOMS[0])
+
+    combos = [(None, None, None, 16), (0.2, None, None, 5), (None, 64, 0.9, None), (None, None, 0.0, None)]
+    for cfg in cfgs:
+        for llm in ("field", "kw0"):
+            for (ta, ma, tb, mb) in combos:
+                for lat_a, lat_b in ((0.5, 0.1), (0.2, 0.5)):
+                    if tier == "quick" and not (ta is None and ma is None and lat_a > lat_b):
+                        continue
+                    yield {"leg": "conc", "config": cfg, "llm": llm, "pshape": "disjoint", "tasks": [
+                        {"start": 0, "users": [atom(0)], "temp": ta, "mt": ma, "log": False, "stream": False, "lat": [lat_a]},
+                        {"start": 0.05, "users": [atom(1)], "temp": tb, "mt": mb, "log": False, "stream": False, "lat": [lat_b]},
+                        {"start": 2.0, "users": ["a"], "temp": None, "mt": None, "log": False, "stream": False, "lat": [0]}]}
+
+
+def enumerate_cases(tier):
+    yield from _between_family(tier)
+    yield from _disjoint_family(tier)
+    shared = _v2_shared_names()
+    for case in _v2_family(tier):
+        if case["llmc"]["names"] == 0 or shared:
+            yield case
 
 
 def _open_findings():
@@ -1165,7 +1902,10 @@ def strategy(tier):
     conc = [_conc_case(llms)]
     if "C15-F9b" in opened:
         conc = [_conc_case(llms, quiet=True)] * 3 + conc
-    return st.one_of(*([_seq_case(llms)] * len(conc) + conc))
+    shared = _v2_shared_names()
+    v2 = _v2_case(False) if not shared else st.one_of(_v2_case(False), _v2_case(False), _v2_case(True)) if shared != "fixed" else st.one_of(_v2_case(False), _v2_case(True), _v2_case(True))
+    # Colang 2.x turns are an order of magnitude slower than Colang 1.0 ones: one case in nine
+    return st.one_of(*([_seq_case(llms)] * len(conc) + conc + [v2]))
 
 
 def budget(tier):
